@@ -15,7 +15,9 @@ Proof.
   rewrite handle_if_eq. cbn [trun tstep]. destruct (tracked c k); cbn [negb]; [|reflexivity].
   set (n1 := track_update v n k d).
   assert (Hst : forall x, n_st (adjust_priority c n1 x) = n_st n1) by reflexivity.
-  destruct (fix_ia v), d; cbn [trun tstep andb]; rewrite ?Hst;
+  unfold adjust_or_skip.
+  destruct (c_coalesce c && (n_cnt n1 =? n_cnt n)) eqn:Q; destruct (fix_ia v), d;
+    cbn [orb trun tstep andb]; rewrite ?Q; cbn [orb trun tstep andb]; rewrite ?Hst;
     try (destruct (sst_eqb (n_st n1) StandbyAlone); cbn [trun tstep];
          try (destruct (tracker_promote _) as [n2 t2]); rewrite ?app_nil_r; reflexivity);
     reflexivity.
@@ -23,7 +25,7 @@ Qed.
 
 Lemma hb_atomic v c n m : trun 8 v c n (THb0 m) = handle_hb v c n m.
 Proof.
-  destruct n as [st e p ps k cnt d], m as [mid mst mp mreq], v as [fh fi ff fs fa], c as [id pr pre dec nifs ov].
+  destruct n as [st e p ps k cnt d], m as [mid mst mp mreq], v as [fh fi ff fs fa], c as [id pr pre dec nifs ov co].
   unfold handle_hb.
   destruct st, k, pre, fh, ff, fs, mst;
     repeat (cbn -[wins]; unfold hb_update, elect, peer_discovered, transition_to, set_peer, set_st, set_pknown);
